@@ -68,6 +68,13 @@ def id_class_pick(r, model, cls):
         cand = [i for i in model.retired if i not in model.out]
         return r.choice(cand) if cand else None
     if cls == "never":
+        known = sorted(set(model.out) | set(model.retired[-4:]))
+        if known and r.random() < 0.3:
+            # an id that was never received but is a machine-word alias of one that was (wrapped, truncated or sign-flipped)
+            base = r.choice(known)
+            alias = r.choice([base + 2 ** 32, base - 2 ** 32, base + 2 ** 16, base + 256, -base, base ^ 0x80])
+            if alias not in model.out and alias not in model.retired and alias != 0:
+                return alias
         hi = max([0] + list(model.out) + model.retired)
         return hi + r.choice([1, 2, 7, 1000])
     if cls == "zero":
